@@ -114,7 +114,7 @@ def mixed_part(ctx, stats):
             jobs.append(specgen.yaml_of(it["decl"], [e], restrict_mapping(it["mapping"], it["per"][j]["out"])))
     res = compilepool.compile_many(jobs)
     ms = {"cascades": n, "compiled": 0, "rejected_consistently": 0, "sections_compared": 0, "kinds": {}, "with_index_math": 0,
-          "index_math_then_reuse_of_its_ranks": 0, "with_spacetime": 0, "partitioned_sections": 0, "executed": 0, "in_c04_defect_class": 0, "in_c01_c16_defect_class": 0}
+          "index_math_then_reuse_of_its_ranks": 0, "with_spacetime": 0, "partitioned_sections": 0, "executed": 0, "in_c04_defect_class": 0, "in_c01_c16_defect_class": 0, "take_reads_intermediate": 0}
     bad = 0
     cases = []
     for it, k in zip(items, index):
@@ -155,6 +155,19 @@ def mixed_part(ctx, stats):
         if any(specgen.take_selected_lacks_rank(s) for s in spec.structs) or \
                 any(coord_on_flat(spec, st) for st in (it["mapping"].get("spacetime") or {}).values()):
             ms["in_c01_c16_defect_class"] += 1         # F7 / F6b: reported by C01 / C16
+            continue
+        produced = set()
+        take_on_intermediate = False
+        for st_ in spec.structs:
+            for t in st_["terms"]:
+                if t["take"] is not None and any(f[0] == "T" and f[1] in produced for f in t["factors"]):
+                    take_on_intermediate = True
+            produced.add(st_["out"])
+        if take_on_intermediate:
+            # an intermediate holds explicit zeros (`z << a` creates the element before the reduction adds anything; iterRangeShapeRef
+            # creates every coordinate); whether take() sees them as present is a question about fibertree that the runtime model
+            # answers with "present" - not settled (see notes/STRENGTHEN_X2.md), so these are compared as text only
+            ms["take_reads_intermediate"] += 1
             continue
         if ms["executed"] >= nexec:
             continue
